@@ -156,6 +156,7 @@ def run(res, tier):
         env = dict(common.ENV)
         for k in VARS:
             env.pop(k, None)
+        env["RUST_BACKTRACE"] = "1"
         modes = [("full", [])]
         if tier == "thorough":
             modes.append(("extra", [str(common.SEED), "20000"]))
@@ -173,7 +174,15 @@ def run(res, tier):
                 cmd = [exe, log, os.path.join(work, "regular.txt"), tty_path, mode] + (extra if extra else [str(common.SEED)])
                 p = subprocess.run(cmd, env=env, stdin=subprocess.DEVNULL, stdout=slave if out_tty else subprocess.DEVNULL, stderr=slave if err_tty else subprocess.PIPE, timeout=900)
                 if p.returncode != 0:
-                    raise Inconclusive("vh-env exited with %d (%s/%s): %s" % (p.returncode, mode, run_name, (p.stderr or b"")[-500:]))
+                    err = (p.stderr or b"").decode("utf-8", "replace")
+                    origin = common.child_panic_origin(err)
+                    if origin and origin[0] == "library":
+                        # the decision function itself panicked: no decision was made for that configuration
+                        i = err.find("panicked at")
+                        res.violation("c09:panic-in-library", "[%s/%s] the child panicked in the repository's code (%s): %s" % (mode, run_name, origin[1], err[i:i + 300].replace("\n", " ")),
+                                      case={"kind": "c09-child", "bytes_hex": [], "nums": [], "mode": mode, "run": run_name})
+                        continue
+                    raise Inconclusive("vh-env exited with %d (%s/%s): %s" % (p.returncode, mode, run_name, err[-500:]))
                 n = check_log(log, run_name, out_tty, res, counters, seen, mode == "full", err_tty)
                 total += n
                 res.lanes.append({"lane": "child:%s:%s" % (mode, run_name), "verdict": "held", "evaluations": n, "observed": {"events": n, "stdout_is_tty": out_tty, "stderr_is_tty": err_tty}})
